@@ -2,6 +2,7 @@ SPECIFICATION Spec
 CONSTANTS
   ChecksAddr = TRUE
   ChecksPad = TRUE
+  WithEncoding = FALSE
   MaxReplies = 4
 INVARIANTS NoClauseFalsified
 CHECK_DEADLOCK FALSE
